@@ -244,7 +244,8 @@ def cmd_check(args):
         getattr(eng, "ASSUMPTIONS", [])
     core.write_evidence(prop, tier, master, cov, wall, len(reported), assump)
     for path, v2, out in reported:
-        print(f"violation: {v2.cls} [{v2.fingerprint}] {v2.msg[:600]}")
+        print(f"violation: {v2.cls} [{v2.fingerprint}] first at run index {out.index}: "
+              f"{v2.msg[:600]}")
         print(f"VIOLATION property={prop} replay={path}")
     print(f"{prop} {tier}: runs={merged['runs']} steps={merged['steps']} "
           f"distinct_nontrivial={cov['distinct_nontrivial']} wall={wall:.1f}s "
